@@ -37,7 +37,8 @@ PROPS = {
                       "println!/print! formats of hash_one_input are transcribed as sp_line, not extracted",
         "units": {"quick": [v("b3sum")], "thorough": []},
         "cone": [r"^crate::(parse_check_line|unescape|hex_half_byte|check_for_invalid_characters|"
-                 r"split_untagged_check_line|split_tagged_check_line|filepath_to_string)$", r"^\(contract\)"],
+                 r"split_untagged_check_line|split_tagged_check_line|filepath_to_string|hash_one_input|write_hex_output|"
+                 r"Args::(raw|tag|no_names|len))$", r"^\(contract\)"],
         "explanation": "The unit is assembled on every run from the real b3sum/src/main.rs (hex_half_byte, "
                        "check_for_invalid_characters, unescape, split_untagged_check_line, split_tagged_check_line, "
                        "parse_check_line, filepath_to_string and the two structs). Postconditions come from the "
